@@ -25,4 +25,5 @@ Definition comp_ok (x : ocomp) : bool :=
 Definition obs_ok (ob : option obs) : bool :=
   match ob with None => true | Some o => span_ok o && forallb comp_ok (o_comps o) end.
 
-Definition spec_ok (c : case) : bool := obs_ok (c_plain c) && obs_ok (c_plain_dur_first c) && obs_ok (c_unrolled c).
+Definition spec_ok (c : case) : bool :=
+  obs_ok (c_plain c) && obs_ok (c_plain_dur_first c) && obs_ok (c_unrolled c) && obs_ok (c_unrolled_dur_first c).
